@@ -17,6 +17,7 @@ package main
 
 import (
 	"fmt"
+	"go/token"
 	"go/types"
 	"reflect"
 	"sort"
@@ -75,6 +76,7 @@ func cloneInstr(in ssa.Instruction) ssa.Instruction {
 
 type canonStats struct {
 	functions, inlinedCalls, absorbed int
+	deadClosures, promoted            int
 	absorbedNames                     []string
 }
 
@@ -88,6 +90,7 @@ type inliner struct {
 	maxDepth   int
 	usedAsCall map[*ssa.Function]int // static call sites that were NOT inlined (barrier / depth)
 	wasInlined map[*ssa.Function]bool
+	synthOf    map[ssa.Instruction]*ssa.Defer // call synthesised for a deferred call of an inlined function -> its defer
 }
 
 // barrier: anchor functions the rules are written against (exported API pinned by the existing tests, see DESIGN.md 3.3),
@@ -162,32 +165,97 @@ func (il *inliner) computeInlinable() {
 		}
 		return walk(from)
 	}
+	callsRecover := func(f *ssa.Function) bool {
+		for _, b := range il.orig[f] {
+			for _, in := range b.Instrs {
+				if x, ok := in.(*ssa.Call); ok {
+					if bi, isB := x.Call.Value.(*ssa.Builtin); isB && bi.Name() == "recover" {
+						return true
+					}
+				}
+			}
+		}
+		return false
+	}
 	for _, f := range il.c.ModFuncs {
 		blocks := il.orig[f]
-		if len(blocks) == 0 || f.Parent() != nil || len(f.FreeVars) > 0 {
+		if len(blocks) == 0 {
 			continue
 		}
 		if il.barrier(f) {
 			continue
 		}
-		ok := true
+		// (an anonymous function is inlined only where it is called through the MakeClosure that binds its free variables)
+		ok := !callsRecover(f) && !reaches(f, f)
+		// deferred calls: every defer is registered outside loops, and for every exit it is known statically whether it
+		// has been registered (it dominates the exit) or not (it cannot reach it). Then "run the deferred calls" at that
+		// exit is an ordinary sequence of calls, and a recover block (never entered without a panic) can be left out.
+		var defers []*ssa.Defer
+		var exits []*ssa.RunDefers
 		for _, b := range blocks {
 			for _, in := range b.Instrs {
 				switch x := in.(type) {
-				case *ssa.Defer, *ssa.RunDefers:
-					ok = false
-				case *ssa.Call:
-					if bi, isB := x.Call.Value.(*ssa.Builtin); isB && bi.Name() == "recover" {
-						ok = false
-					}
+				case *ssa.Defer:
+					defers = append(defers, x)
+				case *ssa.RunDefers:
+					exits = append(exits, x)
 				}
 			}
 		}
-		if f.Recover != nil || reaches(f, f) {
-			ok = false
+		for _, d := range defers {
+			if blockReaches(d.Block(), d.Block()) {
+				ok = false
+			}
+			if g := d.Call.StaticCallee(); g != nil && il.orig[g] != nil && callsRecover(g) {
+				ok = false
+			}
+			if d.Call.IsInvoke() || d.Call.StaticCallee() == nil {
+				if _, isB := d.Call.Value.(*ssa.Builtin); !isB && !d.Call.IsInvoke() {
+					ok = false // a deferred function value: cannot see whether it recovers
+				}
+			}
+			for _, r := range exits {
+				if !deferRegisteredAt(d, r) && (d.Block() == r.Block() || blockReaches(d.Block(), r.Block())) {
+					ok = false
+				}
+			}
 		}
 		il.inlinable[f] = ok
 	}
+}
+
+// blockReaches: there is a non-empty path from a to b.
+func blockReaches(a, b *ssa.BasicBlock) bool {
+	seen := map[*ssa.BasicBlock]bool{}
+	work := append([]*ssa.BasicBlock{}, a.Succs...)
+	for len(work) > 0 {
+		x := work[len(work)-1]
+		work = work[:len(work)-1]
+		if x == b {
+			return true
+		}
+		if seen[x] {
+			continue
+		}
+		seen[x] = true
+		work = append(work, x.Succs...)
+	}
+	return false
+}
+
+// deferRegisteredAt: on every path to the exit r the defer d has been executed (original blocks: ssa's dominator tree is valid).
+func deferRegisteredAt(d *ssa.Defer, r *ssa.RunDefers) bool {
+	if d.Block() == r.Block() {
+		for _, in := range d.Block().Instrs {
+			if in == ssa.Instruction(d) {
+				return true
+			}
+			if in == ssa.Instruction(r) {
+				return false
+			}
+		}
+	}
+	return d.Block().Dominates(r.Block())
 }
 
 type retSite struct {
@@ -240,7 +308,7 @@ func rpo(blocks []*ssa.BasicBlock) []*ssa.BasicBlock {
 // emit copies the (original) body of f into the host, with params bound to args, inlining inlinable callees up to depth.
 // It returns the entry block of the copy, the return sites (block that ends where the Return was, and the returned values)
 // and, for the host itself, the map from original blocks to their first copy (used for Function.Recover).
-func (e *emitCtx) emit(f *ssa.Function, inlined bool, args []ssa.Value, depth int, stack []*ssa.Function) (*ssa.BasicBlock, []retSite, map[*ssa.BasicBlock]*ssa.BasicBlock) {
+func (e *emitCtx) emit(f *ssa.Function, inlined bool, args, binds []ssa.Value, depth int, stack []*ssa.Function) (*ssa.BasicBlock, []retSite, map[*ssa.BasicBlock]*ssa.BasicBlock) {
 	il := e.il
 	vmap := map[ssa.Value]ssa.Value{}
 	if inlined {
@@ -249,7 +317,13 @@ func (e *emitCtx) emit(f *ssa.Function, inlined bool, args []ssa.Value, depth in
 				vmap[p] = args[i]
 			}
 		}
+		for i, fv := range f.FreeVars {
+			if i < len(binds) {
+				vmap[fv] = binds[i]
+			}
+		}
 	}
+	var registered []*ssa.Defer // in registration order (reverse post-order, then position)
 	first := map[*ssa.BasicBlock]*ssa.BasicBlock{}
 	last := map[*ssa.BasicBlock]*ssa.BasicBlock{}
 	var clones []ssa.Instruction
@@ -275,7 +349,43 @@ func (e *emitCtx) emit(f *ssa.Function, inlined bool, args []ssa.Value, depth in
 	}
 	for _, ob := range order {
 		cur := first[ob]
-		for _, in := range ob.Instrs {
+		var handle func(in ssa.Instruction)
+		handle = func(in ssa.Instruction) {
+			if inlined {
+				// deferred calls of an inlined function run where it returns: as ordinary calls, last registered first
+				if d, ok := in.(*ssa.Defer); ok {
+					registered = append(registered, d)
+					return
+				}
+				if r, ok := in.(*ssa.RunDefers); ok {
+					for i := len(registered) - 1; i >= 0; i-- {
+						d := registered[i]
+						if !deferRegisteredAt(d, r) {
+							continue
+						}
+						syn := &ssa.Call{Call: d.Call}
+						syn.Call.Args = append([]ssa.Value(nil), d.Call.Args...)
+						var rt types.Type = types.NewTuple()
+						if sig, ok := d.Call.Value.Type().Underlying().(*types.Signature); ok && !d.Call.IsInvoke() {
+							rt = sig.Results()
+							if sig.Results().Len() == 1 {
+								rt = sig.Results().At(0).Type()
+							}
+						} else if d.Call.IsInvoke() {
+							sig := d.Call.Method.Type().(*types.Signature)
+							rt = sig.Results()
+							if sig.Results().Len() == 1 {
+								rt = sig.Results().At(0).Type()
+							}
+						}
+						setField(syn, "typ", rt)
+						setField(syn, "pos", d.Pos())
+						il.synthOf[syn] = d
+						handle(syn)
+					}
+					return
+				}
+			}
 			// inlinable static call?
 			if call, ok := in.(*ssa.Call); ok && depth > 0 {
 				g := call.Common().StaticCallee()
@@ -285,12 +395,23 @@ func (e *emitCtx) emit(f *ssa.Function, inlined bool, args []ssa.Value, depth in
 						onStack = true
 					}
 				}
-				if g != nil && il.inlinable[g] && !onStack && g != f {
+				var binds []ssa.Value
+				bindable := g != nil && len(g.FreeVars) == 0 && g.Parent() == nil
+				if g != nil && !bindable {
+					// an anonymous function called through the MakeClosure that binds its free variables
+					if mc, isMC := call.Common().Value.(*ssa.MakeClosure); isMC && len(mc.Bindings) == len(g.FreeVars) {
+						bindable = true
+						for _, b := range mc.Bindings {
+							binds = append(binds, look(b))
+						}
+					}
+				}
+				if g != nil && il.inlinable[g] && bindable && !onStack && g != f {
 					var cargs []ssa.Value
 					for _, a := range call.Common().Args {
 						cargs = append(cargs, look(a))
 					}
-					entry, rs, _ := e.emit(g, true, cargs, depth-1, append(stack, f))
+					entry, rs, _ := e.emit(g, true, cargs, binds, depth-1, append(stack, f))
 					il.nInlined++
 					il.wasInlined[g] = true
 					j := &ssa.Jump{}
@@ -337,25 +458,32 @@ func (e *emitCtx) emit(f *ssa.Function, inlined bool, args []ssa.Value, depth in
 						vmap[call] = tupleMarker
 					}
 					cur = cont
-					continue
+					return
 				}
 			}
 			if ex, ok := in.(*ssa.Extract); ok {
 				if vmap[ex.Tuple] == tupleMarker {
-					continue // replaced by the inlined callee's result
+					return // replaced by the inlined callee's result
 				}
 			}
 			if ret, ok := in.(*ssa.Return); ok && inlined {
 				pend = append(pend, pendingRet{cur, ret})
-				continue
+				return
 			}
 			cl := cloneInstr(in)
-			il.origOf[cl] = in
+			if d, isSyn := il.synthOf[in]; isSyn {
+				il.origOf[cl] = d
+			} else {
+				il.origOf[cl] = in
+			}
 			if ov, ok := in.(ssa.Value); ok {
 				vmap[ov] = cl.(ssa.Value)
 			}
 			e.add(cur, cl)
 			clones = append(clones, cl)
+		}
+		for _, in := range ob.Instrs {
+			handle(in)
 		}
 		last[ob] = cur
 	}
@@ -402,7 +530,7 @@ var tupleMarker ssa.Value = &ssa.Const{}
 // canonicalise rewrites every module function in place; see the comment at the top of this file.
 func (c *Ctx) canonicalise(depth int) *canonStats {
 	il := &inliner{c: c, orig: map[*ssa.Function][]*ssa.BasicBlock{}, recover: map[*ssa.Function]*ssa.BasicBlock{},
-		origOf: map[ssa.Instruction]ssa.Instruction{}, maxDepth: depth, usedAsCall: map[*ssa.Function]int{}, wasInlined: map[*ssa.Function]bool{}}
+		origOf: map[ssa.Instruction]ssa.Instruction{}, maxDepth: depth, usedAsCall: map[*ssa.Function]int{}, wasInlined: map[*ssa.Function]bool{}, synthOf: map[ssa.Instruction]*ssa.Defer{}}
 	for _, f := range c.ModFuncs {
 		il.orig[f] = f.Blocks
 		il.recover[f] = f.Recover
@@ -417,7 +545,7 @@ func (c *Ctx) canonicalise(depth int) *canonStats {
 		}
 		var out []*ssa.BasicBlock
 		e := &emitCtx{il: il, host: f, out: &out}
-		_, _, first := e.emit(f, false, nil, depth, nil)
+		_, _, first := e.emit(f, false, nil, nil, depth, nil)
 		newBlocks[f] = out
 		if r := il.recover[f]; r != nil {
 			newRecover[f] = first[r]
@@ -478,6 +606,15 @@ func (c *Ctx) canonicalise(depth int) *canonStats {
 		}
 		f.Blocks = kept
 		f.Recover = newRecover[f]
+	}
+	// closures that were inlined where they are called leave a MakeClosure nobody uses; the cells they captured are then
+	// plain locals again and are promoted to registers, as ssa's own lifting pass would have done
+	for _, f := range c.ModFuncs {
+		if len(f.Blocks) == 0 {
+			continue
+		}
+		st.deadClosures += dropDeadClosures(f)
+		st.promoted += promoteLocals(f)
 	}
 	// referrers and register numbers
 	for _, f := range c.ModFuncs {
@@ -562,7 +699,7 @@ func isMethodOfInterfaceImpl(c *Ctx, f *ssa.Function) bool {
 }
 
 func describeCanon(st *canonStats) string {
-	return fmt.Sprintf("canonicalised %d functions: %d static calls of module helpers inlined, %d helpers absorbed (%s)", st.functions, st.inlinedCalls, st.absorbed, strings.Join(st.absorbedNames, ", "))
+	return fmt.Sprintf("canonicalised %d functions: %d static calls of module helpers inlined, %d helpers absorbed (%s), %d unused closures dropped, %d local cells promoted to registers", st.functions, st.inlinedCalls, st.absorbed, strings.Join(st.absorbedNames, ", "), st.deadClosures, st.promoted)
 }
 
 var _ = types.Typ
@@ -583,4 +720,258 @@ func (il *inliner) isGlobHit(f *ssa.Function) bool {
 		}
 	}
 	return false
+}
+
+// ---- clean-up after inlining ------------------------------------------------------------------------------------------------------
+
+func useCounts(f *ssa.Function) map[ssa.Value]int {
+	uses := map[ssa.Value]int{}
+	for _, b := range f.Blocks {
+		for _, in := range b.Instrs {
+			for _, op := range in.Operands(nil) {
+				if *op != nil {
+					uses[*op]++
+				}
+			}
+		}
+	}
+	return uses
+}
+
+func removeInstrs(f *ssa.Function, dead map[ssa.Instruction]bool) {
+	if len(dead) == 0 {
+		return
+	}
+	for _, b := range f.Blocks {
+		kept := b.Instrs[:0:0]
+		for _, in := range b.Instrs {
+			if !dead[in] {
+				kept = append(kept, in)
+			}
+		}
+		b.Instrs = kept
+	}
+}
+
+// dropDeadClosures removes MakeClosure instructions whose value is not used (the closure was inlined at its only call).
+func dropDeadClosures(f *ssa.Function) int {
+	n := 0
+	for {
+		uses := useCounts(f)
+		dead := map[ssa.Instruction]bool{}
+		for _, b := range f.Blocks {
+			for _, in := range b.Instrs {
+				if mc, ok := in.(*ssa.MakeClosure); ok && uses[mc] == 0 {
+					dead[in] = true
+				}
+			}
+		}
+		if len(dead) == 0 {
+			return n
+		}
+		n += len(dead)
+		removeInstrs(f, dead)
+	}
+}
+
+// promoteLocals turns every local cell that is only loaded and stored directly (in blocks reachable from the entry) into
+// SSA registers: a phi at every join, then trivial and unused phis are removed until nothing changes.
+func promoteLocals(f *ssa.Function) int {
+	reach := map[*ssa.BasicBlock]bool{}
+	order := rpo(f.Blocks)
+	for _, b := range order {
+		reach[b] = true
+	}
+	// candidates
+	bad := map[*ssa.Alloc]bool{}
+	var allocs []*ssa.Alloc
+	for _, b := range f.Blocks {
+		for _, in := range b.Instrs {
+			if a, ok := in.(*ssa.Alloc); ok && reach[b] {
+				allocs = append(allocs, a)
+			}
+			for _, op := range in.Operands(nil) {
+				a, ok := (*op).(*ssa.Alloc)
+				if !ok {
+					continue
+				}
+				switch x := in.(type) {
+				case *ssa.Store:
+					if x.Addr != ssa.Value(a) || x.Val == ssa.Value(a) || !reach[b] {
+						bad[a] = true
+					}
+				case *ssa.UnOp:
+					if x.Op != token.MUL || !reach[b] {
+						bad[a] = true
+					}
+				case *ssa.DebugRef:
+				default:
+					bad[a] = true
+				}
+			}
+		}
+	}
+	n := 0
+	repl := map[ssa.Value]ssa.Value{}
+	resolve := func(v ssa.Value) ssa.Value {
+		for i := 0; i < 64; i++ {
+			r, ok := repl[v]
+			if !ok {
+				return v
+			}
+			v = r
+		}
+		return v
+	}
+	dead := map[ssa.Instruction]bool{}
+	var phis []*ssa.Phi
+	for _, a := range allocs {
+		if bad[a] {
+			continue
+		}
+		n++
+		elem := a.Type().Underlying().(*types.Pointer).Elem()
+		zero := ssa.NewConst(nil, elem)
+		out := map[*ssa.BasicBlock]ssa.Value{}
+		phiOf := map[*ssa.BasicBlock]*ssa.Phi{}
+		for _, b := range order {
+			var cur ssa.Value
+			switch {
+			case b == f.Blocks[0]:
+				cur = zero
+			case len(b.Preds) == 1 && out[b.Preds[0]] != nil:
+				cur = out[b.Preds[0]]
+			default:
+				phi := &ssa.Phi{Comment: a.Comment}
+				setField(phi, "typ", elem)
+				setField(phi, "pos", a.Pos())
+				setField(phi, "block", b)
+				phiOf[b] = phi
+				cur = phi
+			}
+			for _, ins := range b.Instrs {
+				switch x := ins.(type) {
+				case *ssa.Store:
+					if x.Addr == ssa.Value(a) {
+						cur = x.Val
+						dead[ins] = true
+					}
+				case *ssa.UnOp:
+					if x.X == ssa.Value(a) {
+						repl[x] = cur
+						dead[ins] = true
+					}
+				case *ssa.DebugRef:
+					if x.X == ssa.Value(a) {
+						dead[ins] = true
+					}
+				}
+			}
+			out[b] = cur
+		}
+		for b, phi := range phiOf {
+			for _, p := range b.Preds {
+				v := out[p]
+				if v == nil {
+					v = zero // predecessor not reachable from the entry
+				}
+				phi.Edges = append(phi.Edges, v)
+			}
+			b.Instrs = append([]ssa.Instruction{phi}, b.Instrs...)
+			phis = append(phis, phi)
+		}
+		dead[a] = true
+	}
+	if n == 0 {
+		return 0
+	}
+	removeInstrs(f, dead)
+	rewrite := func() {
+		for _, b := range f.Blocks {
+			for _, in := range b.Instrs {
+				for _, op := range in.Operands(nil) {
+					if *op != nil {
+						*op = resolve(*op)
+					}
+				}
+			}
+		}
+	}
+	rewrite()
+	// trivial phis (all operands the same value or the phi itself), then phis no ordinary instruction depends on
+	isNew := map[*ssa.Phi]bool{}
+	for _, phi := range phis {
+		isNew[phi] = true
+	}
+	for changed := true; changed; {
+		changed = false
+		gone := map[ssa.Instruction]bool{}
+		for _, phi := range phis {
+			if !isNew[phi] {
+				continue
+			}
+			var same ssa.Value
+			trivial := true
+			for _, e := range phi.Edges {
+				if e == ssa.Value(phi) || e == same {
+					continue
+				}
+				if same != nil {
+					trivial = false
+					break
+				}
+				same = e
+			}
+			if trivial && same != nil {
+				gone[phi] = true
+				repl[phi] = same
+				isNew[phi] = false
+			}
+		}
+		if len(gone) > 0 {
+			changed = true
+			removeInstrs(f, gone)
+			rewrite()
+		}
+	}
+	live := map[*ssa.Phi]bool{}
+	var work []*ssa.Phi
+	for _, b := range f.Blocks {
+		for _, in := range b.Instrs {
+			if _, isPhi := in.(*ssa.Phi); isPhi && isNew[in.(*ssa.Phi)] {
+				continue
+			}
+			for _, op := range in.Operands(nil) {
+				if phi, ok := (*op).(*ssa.Phi); ok && isNew[phi] && !live[phi] {
+					live[phi] = true
+					work = append(work, phi)
+				}
+			}
+		}
+	}
+	for len(work) > 0 {
+		phi := work[len(work)-1]
+		work = work[:len(work)-1]
+		for _, e := range phi.Edges {
+			if q, ok := e.(*ssa.Phi); ok && isNew[q] && !live[q] {
+				live[q] = true
+				work = append(work, q)
+			}
+		}
+	}
+	unread := map[ssa.Instruction]bool{}
+	for _, phi := range phis {
+		if isNew[phi] && !live[phi] {
+			unread[phi] = true
+		}
+	}
+	removeInstrs(f, unread)
+	var locals []*ssa.Alloc
+	for _, l := range f.Locals {
+		if !dead[l] {
+			locals = append(locals, l)
+		}
+	}
+	f.Locals = locals
+	return n
 }
